@@ -46,6 +46,7 @@ def gen_placement(c):
     # an interface field and its implementation must agree textually on arguments: same directives
     pl["I.s.x"] = []
     pl["I.s"] = []
+    pl["$impl"] = c.choice(["class", "instances"])
     return pl
 
 
@@ -111,31 +112,47 @@ class World:
         self.pl = pl
         self.log = []
         self.calls = {}
+        self.owner, self.misrouted = {}, []
         clean_registry()
         name = "c13"
         W = self
 
         class Tagger:
+            """one class; with placement["$impl"] == "instances" every directive name gets its own instance, which
+            knows its name and notes any usage of *another* directive routed to it"""
+
+            def __init__(self, dname=None):
+                self.dname = dname
+
+            def seen(self, tag):
+                owner = W.owner.get(tag)
+                if self.dname is not None and owner is not None and owner != self.dname:
+                    W.misrouted.append((tag, owner, self.dname))
+
             async def on_post_input_coercion(self, da, nxt, parent_node, value, ctx):
+                self.seen(da["tag"])
                 W.log.append(("in", da["tag"]))
                 return await nxt(parent_node, tag_value(value, da["tag"]), ctx)
 
             async def on_argument_execution(self, da, nxt, parent_node, argument_definition_node, argument_node, value, ctx):
+                self.seen(da["tag"])
                 W.log.append(("arg", da["tag"]))
                 return await nxt(parent_node, argument_definition_node, argument_node, tag_value(value, da["tag"]), ctx)
 
             async def on_field_execution(self, da, nxt, parent, args, ctx, info):
+                self.seen(da["tag"])
                 W.log.append(("field>", da["tag"]))
                 r = await nxt(parent, args, ctx, info)
                 W.log.append(("field<", da["tag"]))
                 return tag_output(r, da["tag"])
 
             async def on_pre_output_coercion(self, da, nxt, value, ctx, info):
+                self.seen(da["tag"])
                 W.log.append(("out", da["tag"]))
                 return await nxt(tag_output(value, da["tag"]), ctx, info)
 
         for n in DNAMES:
-            Directive(n, schema_name=name)(Tagger)
+            Directive(n, schema_name=name)(Tagger(n) if pl.get("$impl") == "instances" else Tagger)
 
         @Scalar("S", schema_name=name)
         class S:
@@ -500,15 +517,33 @@ def expectation(pl, spec):
     return exp_args, exp_data, m.counts
 
 
+def owners(x, acc=None):
+    """tag -> directive name, from every [directive name, tag] pair of the placement and the request"""
+    acc = {} if acc is None else acc
+    if isinstance(x, (list, tuple)):
+        if len(x) == 2 and x[0] in DNAMES and isinstance(x[1], str):
+            acc[x[1]] = x[0]
+        else:
+            for y in x:
+                owners(y, acc)
+    elif isinstance(x, dict):
+        for y in x.values():
+            owners(y, acc)
+    return acc
+
+
 def check(spec, world=None):
     pl = spec["placement"]
     if world is None:
         world = World(pl)
     world.log, world.calls = [], {}
+    world.owner, world.misrouted = owners(spec), []
     text, variables = render(spec)
     resp = run_async(world.engine.execute(text, variables=variables))
     exp_args, exp_data, exp_counts = expectation(pl, spec)
     ctx = "\nSDL:%s\nquery:\n%s\nvariables=%r\nresponse=%s\nresolver args=%r\nhook log=%r" % (sdl(pl), text, variables, str(resp)[:1500], world.calls, world.log[:80])
+    if world.misrouted:
+        raise Violation(spec, "a usage of one directive ran the hooks of another directive's implementation (tag, its directive, the implementation that ran): %r%s" % (world.misrouted[:4], ctx), tag="misrouted")
     null_root = any(u["name"] in ("nnq", "nne") for u in spec["uses"])
     if null_root:
         if resp.get("data") is not None or not resp.get("errors"):
@@ -539,7 +574,7 @@ def check(spec, world=None):
 def case(c, stats):
     pl = gen_placement(c)
     world = World(pl)
-    multi = any(len(v) >= 2 for v in pl.values())
+    multi = any(len(v) >= 2 for k, v in pl.items() if not k.startswith("$"))
     for _ in range(REQUESTS_PER_ENGINE):
         spec = gen_request(c)
         spec["placement"] = pl
